@@ -220,6 +220,14 @@ Theorem C10_legacy_bounded_reject : forall c s a p,
 Proof. exact legacy_bounded_reject. Qed.
 Print Assumptions C10_legacy_bounded_reject.
 
+(* ================= the function the correspondence check (T2) evaluates ================= *)
+
+(* run_case - what `vm_compute` evaluates against the implementation's observations on every run - is, for every
+   history of either space, the run of the cache-free / array-free specification *)
+Theorem C10_run_case_refines : forall c, run_case c = spec_run_case c.
+Proof. exact run_case_refines. Qed.
+Print Assumptions C10_run_case_refines.
+
 (* ================= geometry (both spaces) ================= *)
 
 Theorem C10_dist_symmetric : forall t bs p q, dist2 t bs p q = dist2 t bs q p.
